@@ -643,6 +643,17 @@ func (p *Proxy) connect(req *http.Request) (*http.Response, net.Conn, error) {
 			return nil, nil, err
 		}
 
+		if res.StatusCode/100 == 2 {
+			// A successful response to CONNECT has no body (RFC 7231 4.3.6):
+			// whatever follows the head is tunnel payload, including what
+			// pbr has already buffered.
+			res.Body = http.NoBody
+			if n := pbr.Buffered(); n > 0 {
+				peeked, _ := pbr.Peek(n)
+				conn = &peekedConn{conn, io.MultiReader(bytes.NewReader(peeked), conn)}
+			}
+		}
+
 		return res, conn, nil
 	}
 
